@@ -1415,6 +1415,68 @@ def gen_descr_cases(seed, count):
     return cases
 
 
+def gen_descr_sweep_cases(seed, tier='quick'):
+    """growth boundaries of the description reader's containers, one case per size: the length of one
+    alternative (right-hand side and translation list), the number of declared terminals, the number of
+    rules - every value of a range, because the interesting ones (a segment or a VLO that is exactly
+    full) depend on what precedes them"""
+    r = random.Random(seed)
+    cases = []
+    def mk(cid, order, sentence):
+        text = render_descr(r, order) if r.random() < 0.3 else render_plain(order)
+        terms, rules = descr_twin(order)
+        twin = Grammar(terms, rules, False)
+        c = ['case %s descr' % cid] + twin.text(0) + ['text 0 %s' % text.encode('latin1').hex()]
+        ops = ['create 0', 'descr 0 0 0', 'err 0', 'create 1', 'def 1 0']
+        codes = ' '.join(str(twin.code(t)) for t in sentence)
+        for h in (0, 1): ops += ['set %d rec 0' % h]
+        for h in (0, 1): ops += [('parse %d user user 15 %s' % (h, codes)).strip()]
+        ops += ['free 0', 'free 1']
+        c += ['op %d %s' % (i + 1, o) for i, o in enumerate(ops)] + ['end']
+        cases.append(c)
+    top = 520 if tier == 'thorough' else 230
+    for k in (0, 2):
+        for n in range(1, top + 1):
+            rhs = ['a' if j % 2 == 0 else 'b' for j in range(n)]
+            rules = []
+            if k:
+                rules.append(('S', [(['R'], 'num', None, None, [0], False), (['b', 'b'], 'anode', 'bb', None, [0, 1], True)]))
+                rules.append(('Q', [(['a'], 'num', None, None, [0], False)]))
+            rules.append(('R', [(rhs, 'anode', 'Rec', None, list(range(n)), True)]))
+            order = [('terms', [('a', None), ('b', None)])] + [('rule', x) for x in rules]
+            mk('SWL-%d-%d' % (k, n), order, rhs)
+    for t in range(1, 90 if tier != 'thorough' else 260):
+        terms = [('T%d' % j, None if j % 3 else 400 + j) for j in range(t)]
+        order = [('terms', terms), ('rule', ('S', [([terms[j][0] for j in range(0, t, max(1, t // 5))], 'anode', 's', None, [0], True)]))]
+        mk('SWT-%d' % t, order, [terms[j][0] for j in range(0, t, max(1, t // 5))])
+    for n in range(1, 70 if tier != 'thorough' else 200):
+        rules = [('N%d' % j, [(['a', 'N%d' % (j + 1)], 'anode', 'c%d' % j, None, [0, 1], True)]) for j in range(n - 1)] + \
+                [('N%d' % (n - 1), [(['b'], 'num', None, None, [0], False)])]
+        order = [('terms', [('a', None), ('b', None)])] + [('rule', x) for x in rules]
+        mk('SWR-%d' % n, order, ['a'] * (n - 1) + ['b'])
+    return cases
+
+
+def render_plain(order):
+    """one fixed, minimal layout"""
+    out = []
+    for kind, item in order:
+        if kind == 'terms':
+            out.append('TERM ' + ' '.join(n if c is None else '%s = %d' % (n, c) for n, c in item) + ' ;')
+        else:
+            lhs, alts = item; parts = []
+            for (rhs, kind2, anode, cost, tr, paren) in alts:
+                t = ' '.join(rhs)
+                if kind2 == 'anode':
+                    t += ' # ' + anode + ('' if cost is None else ' %d' % cost) + (' ( ' + ' '.join('-' if e == NIL else str(e) for e in tr) + ' )' if paren else '')
+                elif kind2 == 'num': t += ' # %d' % tr[0]
+                elif kind2 == 'dash': t += ' # -'
+                elif kind2 == 'hash': t += ' #'
+                parts.append(t)
+            out.append(lhs + ' : ' + ' | '.join(parts) + ' ;')
+    return '\n'.join(out) + '\n'
+
+
 def gen_big_symbol_cases(seed, count):
     """grammars with hundreds of terminals / nonterminals and 300-character names: the symbol
     hash tables, object stacks and VLOs of both implementations grow past their initial sizes"""
